@@ -68,7 +68,7 @@ fn op_strategy(heavy_ok: bool) -> impl Strategy<Value = Op> {
         6 => (0u8..4).prop_map(Op::Sign),
         6 => (0u8..4).prop_map(Op::Verify),
         3 => (0u8..4).prop_map(Op::VerifyBad),
-        5 => (0u8..4).prop_map(Op::Encrypt),
+        8 => (0u8..4).prop_map(Op::Encrypt),
         5 => (0u8..4).prop_map(Op::Decrypt),
         3 => (0u8..4).prop_map(Op::DecryptBad),
         1 => (0u8..4).prop_map(Op::DecryptWrongAssertion),
@@ -97,7 +97,15 @@ fn op_strategy(heavy_ok: bool) -> impl Strategy<Value = Op> {
 
 fn plan_strategy<B: Backend>(max_ops: usize) -> impl Strategy<Value = Plan> {
     let heavy_ok = B::VER != Ver::V1;
-    (gens::key_seed(), prop_oneof![2 => 1usize..=1, 8 => 2usize..=16].prop_flat_map(move |n| proptest::collection::vec(proptest::collection::vec(op_strategy(heavy_ok), 1..max_ops), n..=n))).prop_map(|(key, threads)| Plan { key, threads, prior: Vec::new() })
+    let mixed = (gens::key_seed(), prop_oneof![2 => 1usize..=1, 8 => 2usize..=16].prop_flat_map(move |n| proptest::collection::vec(proptest::collection::vec(op_strategy(heavy_ok), 1..max_ops), n..=n))).prop_map(|(key, threads)| Plan { key, threads, prior: Vec::new() });
+    // bursts: every thread hammers ONE kind of operation (with a second kind sprinkled in), so that
+    // the threads are inside the same library code at the same time for the whole plan
+    let burst = (gens::key_seed(), 4usize..=16, op_strategy(heavy_ok), op_strategy(heavy_ok), 0u8..8).prop_map(move |(key, n, main, other, every)| {
+        let len = max_ops.max(8);
+        let threads = (0..n).map(|t| (0..len).map(|i| if every > 0 && (i + t) % (every as usize + 3) == 0 { other } else { main }).collect()).collect();
+        Plan { key, threads, prior: Vec::new() }
+    });
+    prop_oneof![5 => mixed, 1 => burst]
 }
 
 struct Shared<B: Backend> {
@@ -291,6 +299,20 @@ fn exec<B: Backend>(s: &Shared<B>, x: &Expect, op: Op) -> Result<(), String> {
         Op::Encrypt(i) => {
             let i = i4(i);
             let t = UnsealedToken::<V<B>, Local, Raw>::new(Raw(x.msgs[i].clone())).seal(&s.lk, aad_for::<B>(i)).map_err(|e| format!("encrypt failed: {e}"))?.to_string();
+            // a nonce that repeats, or that contains an all-zero 64-bit word, is not something sequential
+            // use produces (2^-256 resp. 2^-62 per token)
+            {
+                let cut = t.match_indices('.').nth(1).map(|(i, _)| i + 1).unwrap_or(0);
+                let body = crate::util::b64_decode(t[cut..].split('.').next().unwrap_or("")).unwrap_or_default();
+                let n = B::VER.local_nonce_len().min(body.len());
+                let nonce = body[..n].to_vec();
+                if nonce.chunks(8).any(|w| w.len() == 8 && w.iter().all(|b| *b == 0)) {
+                    return Err(format!("the nonce {} of a token encrypted here contains an all-zero 64-bit word", crate::util::hx(&nonce)));
+                }
+                if !NONCES.lock().unwrap().insert(nonce.clone()) {
+                    return Err(format!("the nonce {} of a token encrypted here was used by an earlier token of this process", crate::util::hx(&nonce)));
+                }
+            }
             match decrypt_tok::<B>(&s.lk, &t, aad_for::<B>(i)) {
                 Ok(m) if m == x.msgs[i] => Ok(()),
                 other => Err(format!("own ciphertext does not decrypt: {:?}", other.map(|m| m.len()).map_err(|e| err_kind(&e)))),
@@ -413,6 +435,9 @@ fn exec<B: Backend>(s: &Shared<B>, x: &Expect, op: Op) -> Result<(), String> {
         }
     }
 }
+
+/// nonces of all local tokens encrypted in this process (every plan, every thread)
+static NONCES: std::sync::LazyLock<std::sync::Mutex<std::collections::HashSet<Vec<u8>>>> = std::sync::LazyLock::new(|| std::sync::Mutex::new(std::collections::HashSet::new()));
 
 thread_local! {
     /// what a worker thread keeps until it exits; touched FIRST on every worker thread, before any
@@ -731,6 +756,87 @@ fn run_plan<B: Backend>(p: &Plan, acc: &mut Acc) -> R {
     Ok(())
 }
 
+// ---------------------------------------------------------------------------
+// bursts of the randomised sealing operations alone: T threads encrypt and PIE-wrap in a tight loop
+// with one shared key; every nonce of the process must be distinct and look random.  (State shared
+// between calls - pools, caches, counters - shows up here as repeated or partly zero nonces, which no
+// sequential use produces, although every single token still decrypts.)
+
+fn nonce_bursts<B: Backend>(acc: &mut Acc) {
+    let name = B::NAME;
+    let (threads, per_thread) = match (B::VER, acc.tier) {
+        (Ver::V1, Tier::Quick) => (8usize, 400usize),
+        (Ver::V1, Tier::Thorough) => (16, 3000),
+        (_, Tier::Quick) => (8, 4000),
+        (_, Tier::Thorough) => (16, 40000),
+    };
+    let ks = KeySeed::from_u64(mix(acc.seed, 0xb0057));
+    let lk = Arc::new(local_key::<B>(&ks));
+    let wk = Arc::new(local_key::<B>(&KeySeed::from_u64(mix(acc.seed, 0xb0058))));
+    let barrier = Arc::new(Barrier::new(threads));
+    let mut handles = Vec::new();
+    for t in 0..threads {
+        let (lk, wk, ba) = (lk.clone(), wk.clone(), barrier.clone());
+        handles.push(std::thread::spawn(move || -> Result<Vec<(u8, Vec<u8>)>, String> {
+            crate::rng::set_passthrough();
+            ba.wait();
+            let mut out = Vec::with_capacity(per_thread);
+            let nl = B::VER.local_nonce_len();
+            let tl = if B::VER.nist() { 48 } else { 32 };
+            for i in 0..per_thread {
+                if (i + t) % 4 == 3 {
+                    let w = (*lk).clone().wrap_pie(&wk).map_err(|e| format!("wrap_pie failed: {e}"))?.to_string();
+                    let b = crate::util::b64_decode(w.rsplit('.').next().unwrap_or("")).unwrap_or_default();
+                    out.push((1u8, b.get(tl..tl + 32).unwrap_or_default().to_vec()));
+                } else {
+                    let tok = UnsealedToken::<V<B>, Local, Raw>::new(Raw(vec![0x42; 24])).seal(&lk, &[]).map_err(|e| format!("encrypt failed: {e}"))?.to_string();
+                    let b = crate::util::b64_decode(tok.rsplit('.').next().unwrap_or("")).unwrap_or_default();
+                    out.push((0u8, b[..nl.min(b.len())].to_vec()));
+                }
+            }
+            Ok(out)
+        }));
+    }
+    let mut seen: std::collections::HashSet<(u8, Vec<u8>)> = std::collections::HashSet::new();
+    let (mut repeats, mut zero_words, mut total) = (0u64, 0u64, 0u64);
+    let mut example = String::new();
+    for h in handles {
+        match h.join() {
+            Ok(Ok(v)) => {
+                for (kind, n) in v {
+                    total += 1;
+                    if n.chunks(8).any(|w| w.len() == 8 && w.iter().all(|b| *b == 0)) {
+                        zero_words += 1;
+                        example = crate::util::hx(&n);
+                    }
+                    if !seen.insert((kind, n.clone())) {
+                        repeats += 1;
+                        example = crate::util::hx(&n);
+                    }
+                }
+            }
+            Ok(Err(e)) => {
+                acc.fail(Fail::new(format!("C17/{name}/nonce-bursts/operation-failed"), e), json!({"backend": name}));
+                return;
+            }
+            Err(_) => {
+                acc.fail(Fail::new(format!("C17/{name}/nonce-bursts/panic"), "a worker thread panicked".to_string()), json!({"backend": name}));
+                return;
+            }
+        }
+    }
+    acc.evals_n(total);
+    acc.nt(hash_of(&(name, threads, per_thread)));
+    acc.class_n("burst:concurrent-encrypt-and-pie-wrap", total);
+    if repeats > 0 || zero_words > 0 {
+        acc.fail(
+            Fail::new(format!("C17/{name}/nonce-bursts/nonces-not-fresh"), format!("of {total} nonces made by {threads} threads with one shared key, {repeats} repeat an earlier one and {zero_words} contain an all-zero 64-bit word (e.g. {example}); no sequential use of the key produces this")),
+            json!({"backend": name, "threads": threads, "per_thread": per_thread}),
+        );
+    }
+    acc.sample(|| json!({"backend": name, "threads": threads, "operations": total, "repeats": repeats}));
+}
+
 fn subs_for<B: Backend>(out: &mut Vec<SubCheck>) {
     let (cases, max_ops) = match B::NAME {
         "paseto-v1" => ((80, 800), 16),
@@ -739,6 +845,7 @@ fn subs_for<B: Backend>(out: &mut Vec<SubCheck>) {
         _ => ((500, 5000), 40),
     };
     out.push(SubCheck::prop(format!("c17.plans/{}", B::NAME), 10, cases, move |_t| plan_strategy::<B>(max_ops), run_plan::<B>).isolated());
+    out.push(SubCheck::custom(format!("c17.nonce-bursts/{}", B::NAME), 3, nonce_bursts::<B>, |_v: &serde_json::Value, acc: &mut Acc| { nonce_bursts::<B>(acc); Ok(()) }).isolated());
 }
 
 pub fn def() -> PropertyDef {
@@ -747,7 +854,7 @@ pub fn def() -> PropertyDef {
     PropertyDef {
         id: "C17",
         level: "exploration",
-        rule: "proptest plans: 1..16 real threads x up to 40 operations each over {sign, verify, encrypt, decrypt, PIE wrap/unwrap, password unwrap, key seal/unseal, id, display, public_key, clone-and-use, clone-and-drop, clones kept in a thread-local of the caller until the worker thread exits, failing variants (corrupted tokens: flipped character / zeroed tag or signature (r = s = 0) / zeroed first half (r = 0) / truncated; wrong assertion, wrong wrapping key, wrong password, right password on a blob with changed cost parameters - other valid ones and six kinds the KDF refuses -, corrupted sealed key), yield / spin points} on ONE shared key set started on a barrier; oracle = sequential model: deterministic operations return exactly the value precomputed on a separate copy of the keys, randomised ones verify / decrypt to the original, failing ones fail, nothing panics; after every plan a fixed probe set on the shared keys gives the sequential results (failed operations must not alter a key). Every operation must also RETURN: the plan is supervised, and when nothing completes for 60 s the threads inside library calls are classified through /proc (spinning: >= 20% CPU of the last 30 s; blocked: all asleep with no CPU time); the same operations are then run on a fresh copy of the keys in a fresh process, and only if they return there within 15 s is the non-return reported as a violation (otherwise inconclusive, exit 2). Each back end runs in its own child process: a crash (SIGSEGV / SIGABRT / double free) is reported as a violation. Non-trivial iff >= 2 threads with a clone/drop overlapping uses, or a single-thread history containing failing operations",
+        rule: "proptest plans: 1..16 real threads x up to 40 operations each over {sign, verify, encrypt, decrypt, PIE wrap/unwrap, password unwrap, key seal/unseal, id, display, public_key, clone-and-use, clone-and-drop, clones kept in a thread-local of the caller until the worker thread exits, failing variants (corrupted tokens: flipped character / zeroed tag or signature (r = s = 0) / zeroed first half (r = 0) / truncated; wrong assertion, wrong wrapping key, wrong password, right password on a blob with changed cost parameters - other valid ones and six kinds the KDF refuses -, corrupted sealed key), yield / spin points} on ONE shared key set started on a barrier (one plan in six is a burst: all threads repeat one kind of operation for the whole plan); oracle = sequential model: deterministic operations return exactly the value precomputed on a separate copy of the keys, randomised ones verify / decrypt to the original and no local token's nonce repeats within the process or contains an all-zero 64-bit word, failing ones fail, nothing panics; after every plan a fixed probe set on the shared keys gives the sequential results (failed operations must not alter a key). Every operation must also RETURN: the plan is supervised, and when nothing completes for 60 s the threads inside library calls are classified through /proc (spinning: >= 20% CPU of the last 30 s; blocked: all asleep with no CPU time); the same operations are then run on a fresh copy of the keys in a fresh process, and only if they return there within 15 s is the non-return reported as a violation (otherwise inconclusive, exit 2). Separately, per back end, 8 (thorough 16) threads encrypt and PIE-wrap in a tight loop with one shared key (4000 / 40000 operations each; v1 400 / 3000): all nonces of the process are distinct and none contains an all-zero 64-bit word. Each back end runs in its own child process: a crash (SIGSEGV / SIGABRT / double free) is reported as a violation. Non-trivial iff >= 2 threads with a clone/drop overlapping uses, or a single-thread history containing failing operations",
         assumptions: vec![
             "the OS scheduler chooses the interleavings (stress exploration, not schedule enumeration); aws-lc and libsodium are not instrumented, so C-side data races are visible only through wrong results or crashes",
         ],
